@@ -20,16 +20,16 @@ Print Assumptions C19_ones_complement.
 (* BuildIPv4UDPFrame: for every payload that fits the 16-bit length the frame exists (no panic, no fuel
    exhaustion), total/UDP lengths are consistent, the IPv4 header checksum and the UDP checksum verify under the
    RFC 1071 reference verifier, the payload is carried unchanged; after the fix the UDP checksum field is never 0 *)
-Theorem C19_ipv4_frame_verifies : forall v src dst sp dp payload s4 d4,
+Theorem C19_ipv4_frame_verifies : forall v ovf src dst sp dp payload s4 d4,
   to4 src = Some s4 -> to4 dst = Some d4 -> ip_ok src -> ip_ok dst -> bytes_ok payload ->
   sp < 65536 -> dp < 65536 -> blen payload <= 65507 ->
-  exists f, build_ipv4_udp_frame v src dst sp dp payload = Ok (Some f) /\ frame4_ok f payload /\
+  exists f, build_ipv4_udp_frame v ovf src dst sp dp payload = Ok (Some f) /\ frame4_ok f payload /\
             (v = Repaired -> firstn 2 (skipn 26 f) <> [0; 0]).
 Proof. exact build_ipv4_udp_frame_ok. Qed.
 Print Assumptions C19_ipv4_frame_verifies.
 
 Example C19_ipv4_frame_nonvacuous :
-  exists f, build_ipv4_udp_frame Repaired (Some [10;0;0;1]) (Some [255;255;255;255]) 67 68 [1;2;3] = Ok (Some f) /\
+  exists f, build_ipv4_udp_frame Repaired false (Some [10;0;0;1]) (Some [255;255;255;255]) 67 68 [1;2;3] = Ok (Some f) /\
             length f = 31%nat /\ verifies (firstn 20 f) = true /\ verifies (pseudo4 f ++ skipn 20 f) = true.
 Proof. eexists. vm_compute. repeat split. Qed.
 Print Assumptions C19_ipv4_frame_nonvacuous.
@@ -37,7 +37,7 @@ Print Assumptions C19_ipv4_frame_nonvacuous.
 (* before c73561e the code sent a UDP checksum that computes to zero as 0x0000, i.e. "no checksum" (RFC 768) *)
 Theorem C19_udp4_checksum_nonzero_refuted :
   exists src dst sp dp payload f, bytes_ok payload /\
-    build_ipv4_udp_frame Defective (Some src) (Some dst) sp dp payload = Ok (Some f) /\ firstn 2 (skipn 26 f) = [0; 0].
+    build_ipv4_udp_frame Defective false (Some src) (Some dst) sp dp payload = Ok (Some f) /\ firstn 2 (skipn 26 f) = [0; 0].
 Proof.
   exists [10;0;0;1], [255;255;255;255], 67, 68, [245; 82]. eexists. split.
   - repeat constructor.
@@ -45,10 +45,10 @@ Proof.
 Qed.
 Print Assumptions C19_udp4_checksum_nonzero_refuted.
 
-Theorem C19_ipv6_frame_verifies : forall src dst sp dp payload s16 d16,
+Theorem C19_ipv6_frame_verifies : forall ovf src dst sp dp payload s16 d16,
   to16 src = Some s16 -> to16 dst = Some d16 -> ip_ok src -> ip_ok dst -> bytes_ok payload ->
   sp < 65536 -> dp < 65536 -> blen payload <= 65527 ->
-  exists f, build_ipv6_udp_frame src dst sp dp payload = Ok (Some f) /\ frame6_ok f payload /\
+  exists f, build_ipv6_udp_frame ovf src dst sp dp payload = Ok (Some f) /\ frame6_ok f payload /\
             firstn 2 (skipn 46 f) <> [0; 0].
 Proof. exact build_ipv6_udp_frame_ok. Qed.
 Print Assumptions C19_ipv6_frame_verifies.
@@ -193,19 +193,19 @@ Print Assumptions C19_hops_local.
    chaddr, the offered yiaddr, the magic cookie, END directly after the last option; every decoded option has a
    1-byte-representable length (no overlap) and for every code the RFC 3396 value is the concatenation of the intended
    values (message type first) *)
-Theorem C19_reply_decodes : forall xid ci yi si hw mt opts,
+Theorem C19_reply_decodes : forall pad xid ci yi si hw mt opts,
   xid < 4294967296 -> (length hw <= 16)%nat -> Forall opt_code_ok opts ->
-  exists p view, build_dhcp4_reply Repaired xid ci yi si hw mt opts = Ok p /\ ref_decode4 p = Some view /\
+  exists p view, build_dhcp4_reply Repaired pad xid ci yi si hw mt opts = Ok p /\ ref_decode4 p = Some view /\
     v_op view = 2 /\ v_xid view = xid /\ v_yiaddr view = ip4_field yi /\ v_ciaddr view = ip4_field ci /\
     v_chaddr view = hw ++ zeros (16 - length hw) /\
-    v_cookie_ok view = true /\ v_end view = EndSeen [] /\
+    v_cookie_ok view = true /\ v_end view = EndSeen (zeros pad) /\
     Forall (fun o => (length (snd o) <= 255)%nat /\ fst o <> 0 /\ fst o <> 255) (v_opts view) /\
     forall code, opt_value code (v_opts view) = concat (map snd (filter (has_code code) ((53, [mt mod 256]) :: opts))).
 Proof. exact reply_decodes. Qed.
 Print Assumptions C19_reply_decodes.
 
 Example C19_reply_nonvacuous :
-  exists p view, build_dhcp4_reply Repaired 305419896 None (Some [10;0;0;2]) (Some [10;0;0;1]) [170;187;204;221;238;255] 5
+  exists p view, build_dhcp4_reply Repaired 0 305419896 None (Some [10;0;0;2]) (Some [10;0;0;1]) [170;187;204;221;238;255] 5
                    [(54, [10;0;0;1]); (51, [0;0;14;16]); (6, [8;8;8;8;1;1;1;1])] = Ok p /\
     ref_decode4 p = Some view /\ v_xid view = 305419896 /\ v_yiaddr view = [10;0;0;2] /\
     v_opts view = [(53, [5]); (54, [10;0;0;1]); (51, [0;0;14;16]); (6, [8;8;8;8;1;1;1;1])].
@@ -216,7 +216,7 @@ Print Assumptions C19_reply_nonvacuous.
    bytes as further options: the DNS value is lost and the message does not end in END *)
 Theorem C19_reply_decodes_refuted :
   exists xid hw mt opts p view, Forall opt_code_ok opts /\
-    build_dhcp4_reply Defective xid None None None hw mt opts = Ok p /\ ref_decode4 p = Some view /\
+    build_dhcp4_reply Defective 0 xid None None None hw mt opts = Ok p /\ ref_decode4 p = Some view /\
     (opt_value 6 (v_opts view) <> concat (map snd (filter (has_code 6) opts)) /\ v_end view <> EndSeen []).
 Proof.
   exists 1, [1;2;3;4;5;6], 5, [(6, concat (repeat [8;8;8;8] 64))]. eexists. eexists.
@@ -305,23 +305,23 @@ Print Assumptions C19_opt82_keep_drop_strip_nonvacuous.
 (* ---------------------------------------------------------------- the other IPv4 framers *)
 (* WrapIPUDP (the relay/proxy framer, ports 67->68) and BuildUDPPacket: as C19_ipv4_frame_verifies, plus the header
    fields are the requested ones (0x45, TTL 64, protocol 17, addresses, ports) and the UDP checksum is never 0 *)
-Theorem C19_wrap_frame_verifies : forall v payload src dst s4 d4,
+Theorem C19_wrap_frame_verifies : forall v ovf payload src dst s4 d4,
   to4 src = Some s4 -> to4 dst = Some d4 -> ip_ok src -> ip_ok dst -> bytes_ok payload -> blen payload <= 65507 ->
-  exists f, wrap_ip_udp v payload src dst = Ok f /\ frame4_ok f payload /\ frame4_fields f s4 d4 67 68 /\
+  exists f, wrap_ip_udp v ovf payload src dst = Ok f /\ frame4_ok f payload /\ frame4_fields f s4 d4 67 68 /\
             firstn 2 (skipn 26 f) <> [0; 0].
 Proof. exact wrap_ip_udp_ok. Qed.
 Print Assumptions C19_wrap_frame_verifies.
 
-Theorem C19_udp_packet_verifies : forall src dst sp dp payload s4 d4,
+Theorem C19_udp_packet_verifies : forall ovf src dst sp dp payload s4 d4,
   to4 src = Some s4 -> to4 dst = Some d4 -> ip_ok src -> ip_ok dst -> bytes_ok payload ->
   sp < 65536 -> dp < 65536 -> blen payload <= 65507 ->
-  exists f, build_udp_packet src dst sp dp payload = Ok f /\ frame4_ok f payload /\ frame4_fields f s4 d4 sp dp /\
+  exists f, build_udp_packet ovf src dst sp dp payload = Ok f /\ frame4_ok f payload /\ frame4_fields f s4 d4 sp dp /\
             firstn 2 (skipn 26 f) <> [0; 0].
 Proof. exact build_udp_packet_ok. Qed.
 Print Assumptions C19_udp_packet_verifies.
 
-Theorem C19_ipv4_frame_fields : forall v src dst sp dp payload s4 d4 f,
-  to4 src = Some s4 -> to4 dst = Some d4 -> build_ipv4_udp_frame v src dst sp dp payload = Ok (Some f) ->
+Theorem C19_ipv4_frame_fields : forall v ovf src dst sp dp payload s4 d4 f,
+  to4 src = Some s4 -> to4 dst = Some d4 -> build_ipv4_udp_frame v ovf src dst sp dp payload = Ok (Some f) ->
   frame4_fields f s4 d4 sp dp.
 Proof. exact build_ipv4_udp_frame_fields. Qed.
 Print Assumptions C19_ipv4_frame_fields.
@@ -331,10 +331,10 @@ Print Assumptions C19_ipv4_frame_fields.
 Example C19_frames_carry_nonvacuous :
   let s := Some [255;255;122;210] in let d := Some [255;255;255;255] in
   fold_loop 1 (sum_words [255;255;122;210] + sum_words [255;255;255;255] + 17 + 10 + (0 + 68 + 10 + sum_words [132;199])) = OutOfFuel /\
-  (exists f, build_ipv4_udp_frame Repaired s d 0 68 [132;199] = Ok (Some f) /\ verifies (pseudo4 f ++ skipn 20 f) = true) /\
-  (exists f, build_udp_packet s d 0 68 [132;199] = Ok f /\ verifies (pseudo4 f ++ skipn 20 f) = true) /\
-  (exists f, wrap_ip_udp Repaired [132;199] s d = Ok f /\ verifies (firstn 20 f) = true /\ verifies (pseudo4 f ++ skipn 20 f) = true) /\
-  (exists f, build_ipv4_udp_frame Repaired (Some [10;0;0;1]) d 67 68 [245;82] = Ok (Some f) /\ firstn 2 (skipn 26 f) = [255;255] /\
+  (exists f, build_ipv4_udp_frame Repaired false s d 0 68 [132;199] = Ok (Some f) /\ verifies (pseudo4 f ++ skipn 20 f) = true) /\
+  (exists f, build_udp_packet false s d 0 68 [132;199] = Ok f /\ verifies (pseudo4 f ++ skipn 20 f) = true) /\
+  (exists f, wrap_ip_udp Repaired false [132;199] s d = Ok f /\ verifies (firstn 20 f) = true /\ verifies (pseudo4 f ++ skipn 20 f) = true) /\
+  (exists f, build_ipv4_udp_frame Repaired false (Some [10;0;0;1]) d 67 68 [245;82] = Ok (Some f) /\ firstn 2 (skipn 26 f) = [255;255] /\
              verifies (pseudo4 f ++ skipn 20 f) = true).
 Proof. cbv zeta. split; [vm_compute; reflexivity|]. repeat split; eexists; vm_compute; repeat split. Qed.
 Print Assumptions C19_frames_carry_nonvacuous.
@@ -375,20 +375,20 @@ Print Assumptions C19_option82_build_nonvacuous.
    67 -> 68; decoded with the reference decoder: xid, yiaddr, siaddr, chaddr, cookie, END; for every option code the
    RFC 3396 value is the intended one; the route bytes decode (RFC 3442) to the configured routes; when no value
    exceeds 255 bytes the decoded option list IS the intended list (nothing added, nothing lost, order kept) *)
-Theorem C19_resolved_reply_decodes : forall xid ci hw mt yip router sid mask dns lease routes extra src s4,
+Theorem C19_resolved_reply_decodes : forall ovf pad xid ci hw mt yip router sid mask dns lease routes extra src s4,
   xid < 4294967296 -> (length hw <= 16)%nat -> lease < 4294967296 ->
   ip_ok ci -> ip_ok yip -> ip_ok router -> ip_ok sid -> bytes_ok hw -> bytes_ok mask -> Forall ip_ok dns ->
   Forall route_ok routes -> Forall (fun r => ip_ok (snd (fst r)) /\ ip_ok (snd r)) routes -> Forall raw_ok extra ->
   src = match sid with Some _ => sid | None => router end -> to4 src = Some s4 ->
   exists rt payload view,
     (routes <> [] -> classless routes = Ok rt /\ ref_routes (length routes + 1) rt = Some (map route_view routes)) /\
-    build_dhcp4_reply Repaired xid ci yip src hw mt (resolved_opts lease mask sid router dns rt routes extra) = Ok payload /\
+    build_dhcp4_reply Repaired pad xid ci yip src hw mt (resolved_opts lease mask sid router dns rt routes extra) = Ok payload /\
     bytes_ok payload /\
     (blen payload <= 65507 ->
-       exists f, build_response_resolved Repaired xid ci hw mt yip router sid mask dns lease routes extra = Ok (Some f) /\
+       exists f, build_response_resolved Repaired ovf pad xid ci hw mt yip router sid mask dns lease routes extra = Ok (Some f) /\
                  frame4_ok f payload /\ frame4_fields f s4 bcast 67 68 /\ firstn 2 (skipn 26 f) <> [0; 0]) /\
     ref_decode4 payload = Some view /\ v_op view = 2 /\ v_xid view = xid /\ v_yiaddr view = ip4_field yip /\
-    v_siaddr view = s4 /\ v_chaddr view = hw ++ zeros (16 - length hw) /\ v_cookie_ok view = true /\ v_end view = EndSeen [] /\
+    v_siaddr view = s4 /\ v_chaddr view = hw ++ zeros (16 - length hw) /\ v_cookie_ok view = true /\ v_end view = EndSeen (zeros pad) /\
     (forall code, opt_value code (v_opts view) =
                   concat (map snd (filter (has_code code) ((53, [mt mod 256]) :: resolved_opts lease mask sid router dns rt routes extra)))) /\
     ((length mask <= 255)%nat -> (length (dns_data dns) <= 255)%nat -> (length rt <= 255)%nat ->
@@ -408,21 +408,21 @@ Print Assumptions C19_reply_std_once.
    configuration at load time, which is exactly the hypothesis raw_ok of the theorems above. *)
 Theorem C19_reply_unvalidated_raw_refuted :
   exists extra p view, raw_option_valid (51, [0;0;0;1]) = false /\ extra = [(51, [0;0;0;1])] /\
-    build_dhcp4_reply Repaired 1 None None None [] 5 (resolved_opts 3600 [255;255;255;0] None None [] [] [] extra) = Ok p /\
+    build_dhcp4_reply Repaired 0 1 None None None [] 5 (resolved_opts 3600 [255;255;255;0] None None [] [] [] extra) = Ok p /\
     ref_decode4 p = Some view /\ count_opt 51 (v_opts view) = 2%nat.
 Proof. eexists. eexists. eexists. vm_compute. repeat split. Qed.
 Print Assumptions C19_reply_unvalidated_raw_refuted.
 
-Theorem C19_pool_reply_decodes : forall xid ci hw mt ip gateway g4 mask dns lease extra,
+Theorem C19_pool_reply_decodes : forall ovf pad xid ci hw mt ip gateway g4 mask dns lease extra,
   xid < 4294967296 -> (length hw <= 16)%nat -> ip_ok ci -> ip_ok ip -> ip_ok gateway -> bytes_ok hw -> bytes_ok mask ->
   Forall ip_ok dns -> Forall raw_ok extra -> to4 gateway = Some g4 ->
   exists payload view,
-    build_dhcp4_reply Repaired xid ci ip gateway hw mt (pool_opts lease mask g4 dns extra) = Ok payload /\ bytes_ok payload /\
+    build_dhcp4_reply Repaired pad xid ci ip gateway hw mt (pool_opts lease mask g4 dns extra) = Ok payload /\ bytes_ok payload /\
     (blen payload <= 65507 ->
-       exists f, build_response_pool Repaired xid ci hw mt ip gateway mask dns lease extra = Ok (Some f) /\
+       exists f, build_response_pool Repaired ovf pad xid ci hw mt ip gateway mask dns lease extra = Ok (Some f) /\
                  frame4_ok f payload /\ frame4_fields f g4 bcast 67 68 /\ firstn 2 (skipn 26 f) <> [0; 0]) /\
     ref_decode4 payload = Some view /\ v_op view = 2 /\ v_xid view = xid /\ v_yiaddr view = ip4_field ip /\
-    v_chaddr view = hw ++ zeros (16 - length hw) /\ v_cookie_ok view = true /\ v_end view = EndSeen [] /\
+    v_chaddr view = hw ++ zeros (16 - length hw) /\ v_cookie_ok view = true /\ v_end view = EndSeen (zeros pad) /\
     (forall code, opt_value code (v_opts view) =
                   concat (map snd (filter (has_code code) ((53, [mt mod 256]) :: pool_opts lease mask g4 dns extra)))).
 Proof. exact pool_reply. Qed.
@@ -431,7 +431,7 @@ Print Assumptions C19_pool_reply_decodes.
 Example C19_resolved_reply_nonvacuous :
   let routes := [(0, Some [0;0;0;0], Some [10;0;0;1]); (24, Some [192;168;7;0], Some [10;0;0;9])] in
   Forall route_ok routes /\ Forall raw_ok [(43, [1;2;3])] /\
-  exists f, build_response_resolved Repaired 7 None [170;187;204;221;238;255] 5 (Some [10;0;0;2]) (Some [10;0;0;1]) (Some [10;0;0;1])
+  exists f, build_response_resolved Repaired false 0 7 None [170;187;204;221;238;255] 5 (Some [10;0;0;2]) (Some [10;0;0;1]) (Some [10;0;0;1])
               [255;255;255;255] [Some [8;8;8;8]] 3600 routes [(43, [1;2;3])] = Ok (Some f) /\
             verifies (firstn 20 f) = true /\ verifies (pseudo4 f ++ skipn 20 f) = true /\
             bind_opt (ref_decode4 (skipn 28 f)) (fun v => Some (v_opts v)) =
@@ -504,7 +504,7 @@ Proof. vm_compute. repeat split. Qed.
 Print Assumptions C19_relay_nonvacuous.
 
 Example C19_ipv6_frame_nonvacuous :
-  exists f, build_ipv6_udp_frame (Some (repeat 255 16)) (Some (repeat 255 16)) 547 546 [255;255;0;0] = Ok (Some f) /\
+  exists f, build_ipv6_udp_frame false (Some (repeat 255 16)) (Some (repeat 255 16)) 547 546 [255;255;0;0] = Ok (Some f) /\
             length f = 52%nat /\ verifies (pseudo6 f ++ skipn 40 f) = true.
 Proof. eexists. vm_compute. repeat split. Qed.
 Print Assumptions C19_ipv6_frame_nonvacuous.
@@ -577,9 +577,9 @@ Qed.
 Print Assumptions C19_v6_lifetimes_nested_nonvacuous.
 
 (* ---------------------------------------------------------------- IPv6/UDP header fields *)
-Theorem C19_ipv6_frame_fields : forall src dst sp dp payload s16 d16 f,
+Theorem C19_ipv6_frame_fields : forall ovf src dst sp dp payload s16 d16 f,
   to16 src = Some s16 -> to16 dst = Some d16 -> ip_ok src -> ip_ok dst ->
-  build_ipv6_udp_frame src dst sp dp payload = Ok (Some f) -> frame6_fields f s16 d16 sp dp.
+  build_ipv6_udp_frame ovf src dst sp dp payload = Ok (Some f) -> frame6_fields f s16 d16 sp dp.
 Proof. exact build_ipv6_udp_frame_fields. Qed.
 Print Assumptions C19_ipv6_frame_fields.
 
@@ -652,7 +652,7 @@ Print Assumptions C19_proxy_back_faithful.
 Example C19_relay_pipeline_nonvacuous :
   exists out fr, relay_forward4 Repaired (wf_pkt ex_hdr ex_two82 [255]) (Some [10;0;0;1]) [82;3;1;1;90] Replace = Ok out /\
     ref_options out = ([(53, [1]); (82, [1;1;90])], EndSeen []) /\ firstn 4 (skipn 24 out) = [10;0;0;1] /\ nth 3 out 0 = 1 /\
-    proxy_reply4 Repaired (wf_pkt ex_hdr (ex_server ++ [Opt 82 [1;1;90]]) [255]) (Some [10;0;0;1]) 3600 = Ok fr /\
+    proxy_reply4 Repaired false (wf_pkt ex_hdr (ex_server ++ [Opt 82 [1;1;90]]) [255]) (Some [10;0;0;1]) 3600 = Ok fr /\
     verifies (firstn 20 fr) = true /\ verifies (pseudo4 fr ++ skipn 20 fr) = true /\
     fst (ref_options (skipn 28 fr)) = [(53, [5]); (54, [10;0;0;1]); (51, [0;0;14;16]); (58, [0;0;7;8]); (59, [0;0;12;78]); (1, [255;255;255;0])].
 Proof. eexists. eexists. vm_compute. repeat split. Qed.
@@ -660,7 +660,7 @@ Print Assumptions C19_relay_pipeline_nonvacuous.
 
 (* the RFC 3396 split of HEAD through the whole resolved path: 65 DNS servers (260 bytes) come back as one value *)
 Example C19_resolved_long_value_nonvacuous :
-  exists f v, build_response_resolved Repaired 7 None [1;2;3;4;5;6] 5 (Some [10;0;0;2]) (Some [10;0;0;1]) (Some [10;0;0;1])
+  exists f v, build_response_resolved Repaired false 0 7 None [1;2;3;4;5;6] 5 (Some [10;0;0;2]) (Some [10;0;0;1]) (Some [10;0;0;1])
                 [255;255;255;0] (repeat (Some [8;8;4;4]) 65) 3600 [] [] = Ok (Some f) /\
     ref_decode4 (skipn 28 f) = Some v /\ v_end v = EndSeen [] /\ count_opt 6 (v_opts v) = 2%nat /\
     opt_value 6 (v_opts v) = concat (repeat [8;8;4;4] 65) /\ verifies (pseudo4 f ++ skipn 20 f) = true.
@@ -703,10 +703,10 @@ Print Assumptions C19_reply_addr_options_nonempty.
 (* before b01cb01: a DNS list with only an IPv6 entry, an IPv6 router and a nil mask give options 1, 3 and 6 of length 0
    (RFC 2132: minimum length 4) *)
 Theorem C19_reply_zero_length_refuted :
-  exists f v, build_response_resolved Head 1 None [1;2;3;4;5;6] 5 (Some [10;0;0;2]) (Some (repeat 32 16)) (Some [10;0;0;1])
+  exists f v, build_response_resolved Head false 0 1 None [1;2;3;4;5;6] 5 (Some [10;0;0;2]) (Some (repeat 32 16)) (Some [10;0;0;1])
                 [] [Some (repeat 32 16)] 3600 [] [] = Ok (Some f) /\
     ref_decode4 (skipn 28 f) = Some v /\ In (1, []) (v_opts v) /\ In (3, []) (v_opts v) /\ In (6, []) (v_opts v) /\
-    (exists f' v', build_response_resolved Repaired 1 None [1;2;3;4;5;6] 5 (Some [10;0;0;2]) (Some (repeat 32 16)) (Some [10;0;0;1])
+    (exists f' v', build_response_resolved Repaired false 0 1 None [1;2;3;4;5;6] 5 (Some [10;0;0;2]) (Some (repeat 32 16)) (Some [10;0;0;1])
                      [] [Some (repeat 32 16)] 3600 [] [] = Ok (Some f') /\ ref_decode4 (skipn 28 f') = Some v' /\
                    v_opts v' = [(53, [5]); (51, [0;0;14;16]); (54, [10;0;0;1])]).
 Proof.
@@ -717,13 +717,13 @@ Print Assumptions C19_reply_zero_length_refuted.
 
 (* (c) bd61667.  WrapIPUDP never panics and never runs out of fuel, for any addresses and any
    payload (for non-IPv4 addresses it returns no frame) *)
-Theorem C19_wrap_never_crashes : forall payload src dst, exists f, wrap_ip_udp Repaired payload src dst = Ok f.
+Theorem C19_wrap_never_crashes : forall ovf payload src dst, exists f, wrap_ip_udp Repaired ovf payload src dst = Ok f.
 Proof. exact wrap_never_crashes. Qed.
 Print Assumptions C19_wrap_never_crashes.
 
 (* before bd61667: an IPv6 giaddr (accepted by net.ParseIP and by the config loader) makes the proxy's reply path panic *)
 Theorem C19_wrap_ipv6_giaddr_refuted :
-  proxy_reply4 Head (wf_pkt ex_hdr ex_server [255]) (Some (repeat 32 16)) 3600 = Panic /\
+  proxy_reply4 Head false (wf_pkt ex_hdr ex_server [255]) (Some (repeat 32 16)) 3600 = Panic /\
   set_giaddr (wf_pkt ex_hdr ex_server [255]) (Some (repeat 32 16)) = wf_pkt ex_hdr ex_server [255].
 Proof. vm_compute. split; reflexivity. Qed.
 Print Assumptions C19_wrap_ipv6_giaddr_refuted.
@@ -758,3 +758,24 @@ Example C19_v6_ia_ta_nonvacuous :
   [7;1;2;3] ++ enc6 [ta; like; (6403, zeros 30); (3, [0;0;0;9; 0;0;0;50; 0;0;0;80] ++ opt6 5 (addr ++ [0;0;0;100;0;0;0;200]))].
 Proof. vm_compute. reflexivity. Qed.
 Print Assumptions C19_v6_ia_ta_nonvacuous.
+
+(* ================================================================ admissible choices (neutral-change round) *)
+(* The property leaves two things open, and the model takes them as parameters so that every theorem above holds for
+   EVERY choice: [pad] = number of zero octets after END in a server reply (RFC 2131: octets after END are pad options;
+   /repo HEAD appends none, C19_reply_decodes etc. are stated for all [pad] and show v_end = EndSeen (zeros pad));
+   [ovf] = whether a frame builder refuses a payload whose lengths do not fit the 16-bit fields (the frame theorems are
+   stated for all [ovf] and for the payloads that fit, where it has no influence). *)
+Theorem C19_frame_oversize_may_be_refused : forall v src dst sp dp payload s4 d4, to4 src = Some s4 -> to4 dst = Some d4 ->
+  65507 < blen payload -> build_ipv4_udp_frame v true src dst sp dp payload = Ok None.
+Proof. exact frame_ovf_refuses. Qed.
+Print Assumptions C19_frame_oversize_may_be_refused.
+
+(* HEAD's policy (no padding) and another admissible one (pad to the 300-byte BOOTP minimum) decode to the same values *)
+Example C19_reply_pad_nonvacuous :
+  exists p0 p1 v0 v1,
+    build_dhcp4_reply Repaired 0 7 None (Some [10;0;0;2]) (Some [10;0;0;1]) [1;2;3;4;5;6] 5 [(54, [10;0;0;1]); (51, [0;0;14;16])] = Ok p0 /\
+    build_dhcp4_reply Repaired 44 7 None (Some [10;0;0;2]) (Some [10;0;0;1]) [1;2;3;4;5;6] 5 [(54, [10;0;0;1]); (51, [0;0;14;16])] = Ok p1 /\
+    length p0 = 256%nat /\ length p1 = 300%nat /\ ref_decode4 p0 = Some v0 /\ ref_decode4 p1 = Some v1 /\
+    v_opts v0 = v_opts v1 /\ v_xid v0 = v_xid v1 /\ v_end v0 = EndSeen [] /\ v_end v1 = EndSeen (zeros 44).
+Proof. do 4 eexists. vm_compute. repeat split. Qed.
+Print Assumptions C19_reply_pad_nonvacuous.
